@@ -6,7 +6,7 @@
                    claimed in the CURRENT element group)
    modeB = true  : proposed fix (ghost layer from all nodes the rank owns).                      *)
 From Coq Require Import List Arith Bool PeanoNat Lia Reals.
-From EFModel Require Import C20_Partition C20_Partition_proofs C20_Scatter C20_Merge_proofs.
+From EFModel Require Import C20_Partition C20_Partition_proofs C20_Scatter C20_Merge_proofs C20_EnergyB.
 Import ListNotations.
 Close Scope R_scope.
 Open Scope nat_scope.
@@ -121,6 +121,44 @@ Theorem C20_energy_sum : forall Nproc (val : ielem -> nat -> R),
            (seq 0 Nproc)
   = sum_over (fun n => (u n * assemble val ig n)%R) (canon (nodes_of ig)).
 Proof. exact energy_single_A. Qed.
+
+
+(* ---- fixed ghost layer, GENERAL meshes (any number of main-dimension groups, any order) ---- *)
+(* on every row a rank owns the system assembled on its part (all main groups summed) is the global one *)
+Theorem C20_part_system_equals_global_fixed : forall Nproc (val : ielem -> nat -> R),
+  (forall x n, ~ In n (enodes x) -> val x n = 0%R) ->
+  forall gs r n, r < Nproc -> all_valid Nproc gs -> In n (owned_B Nproc gs r) ->
+  A_part Nproc val gs r n = A_glob val gs n.
+Proof. exact part_system_equals_global. Qed.
+
+(* the owned-node sets (Mesh._Get_mpi_owned_nodes) partition the nodes of the main-dimension elements *)
+Theorem C20_owned_nodes_partition_fixed : forall Nproc gs, all_valid Nproc gs ->
+  NoDup (all_nodes gs) /\ (forall r, r < Nproc -> NoDup (owned_B Nproc gs r)) /\
+  (forall r s n, r < Nproc -> s < Nproc -> In n (owned_B Nproc gs r) -> In n (owned_B Nproc gs s) -> r = s) /\
+  (forall n, In n (all_nodes gs) <-> exists r, r < Nproc /\ In n (owned_B Nproc gs r)).
+Proof. exact owned_B_partition. Qed.
+
+(* Calc_Energy: sum over the parts of the owned-row energies = global energy *)
+Theorem C20_energy_sum_fixed_general : forall Nproc (val : ielem -> nat -> R),
+  (forall x n, ~ In n (enodes x) -> val x n = 0%R) ->
+  forall (u : nat -> R) gs, all_valid Nproc gs ->
+  sum_over (fun r => sum_over (fun n => (u n * A_part Nproc val gs r n)%R) (owned_B Nproc gs r)) (seq 0 Nproc)
+  = sum_over (fun n => (u n * A_glob val gs n)%R) (all_nodes gs).
+Proof. exact energy_fixed_general. Qed.
+
+(* Calc_Reaction: reactions taken on the owning part and summed over the parts = global reaction *)
+Theorem C20_reaction_sum_fixed_general : forall Nproc (val : ielem -> nat -> R),
+  (forall x n, ~ In n (enodes x) -> val x n = 0%R) ->
+  forall gs n, all_valid Nproc gs -> In n (all_nodes gs) ->
+  sum_over (fun r => if mem n (owned_B Nproc gs r) then A_part Nproc val gs r n else 0%R) (seq 0 Nproc)
+  = A_glob val gs n.
+Proof. exact reaction_fixed_general. Qed.
+
+Example C20_energy_fixed_nonvacuous : all_valid 2 witness_mixed /\ length (mains witness_mixed) = 2.
+Proof. exact energy_fixed_hyps. Qed.
+
+Print Assumptions C20_energy_sum_fixed_general.
+Print Assumptions C20_reaction_sum_fixed_general.
 
 (* the executable loop (threaded dict_rank_nodes) computes the parts the theorems talk about *)
 Theorem C20_exec_is_spec : forall Nproc modeB (pre : list group) (g : group) (post : list group) r,
